@@ -18,6 +18,34 @@ pub const fn change_const_primitive(primitive: idlc_mir::Primitive) -> &'static 
     }
 }
 
+/// The C expression for a constant written as `literal` in the IDL. Integer constants are
+/// spelled by value in decimal: the IDL spelling may have leading zeros (octal in C) or be a
+/// negated hexadecimal literal (unsigned in C), and the most negative 64-bit value has no
+/// literal of its own.
+pub fn const_expression(primitive: idlc_mir::Primitive, literal: &str) -> String {
+    let wrapper = change_const_primitive(primitive);
+    if matches!(
+        primitive,
+        idlc_mir::Primitive::Float32 | idlc_mir::Primitive::Float64
+    ) {
+        return format!("{wrapper}({literal})");
+    }
+    let (negative, digits) = literal
+        .strip_prefix('-')
+        .map_or((false, literal), |digits| (true, digits));
+    let magnitude = digits.strip_prefix("0x").map_or_else(
+        || digits.parse::<i128>(),
+        |hex| i128::from_str_radix(hex, 16),
+    );
+    match magnitude {
+        Ok(magnitude) if negative && magnitude == i128::from(i64::MIN).unsigned_abs() as i128 => {
+            format!("({wrapper}({}) - 1)", i64::MIN + 1)
+        }
+        Ok(magnitude) => format!("{wrapper}({})", if negative { -magnitude } else { magnitude }),
+        Err(_) => format!("{wrapper}({literal})"),
+    }
+}
+
 pub const fn change_primitive(primitive: idlc_mir::Primitive) -> &'static str {
     match primitive {
         idlc_mir::Primitive::Uint8 => "uint8_t",
